@@ -708,6 +708,9 @@ func c06Fallbacks(r *Run, reg *Registry) {
 					disc = "comma-ok assertion of an attribute value to kmip.ObjectType"
 				}
 			}
+			if ta, ok := arg.(*ssa.TypeAssert); ok && !ta.CommaOk && typeName(ta.AssertedType) == "ObjectType" {
+				disc = "assertion of an attribute value to kmip.ObjectType (its safety is C02.R2's obligation)"
+			}
 			switch {
 			case found == 0:
 				r.Unk("C06.D5", key, c.Pos(), "no decode into the Object field found after NewObjectForType")
